@@ -6,7 +6,7 @@ from fractions import Fraction
 
 import numpy as _np
 
-from . import core, lift, symnp
+from . import core, lift, symnp, symspecial
 from .core import Sx, NotEncodable
 
 
@@ -258,6 +258,7 @@ def symbolic_helpers():
         '__vf__': vf, '__vc__': vc, '__vdiv__': vdiv, '__vpow__': vpow, '__vidiv__': vidiv, '__vipow__': vipow,
         '__vint__': vint, '__vfloat__': vfloat, '__vround__': vround, '__vcomplex__': vcomplex,
         '__visinstance__': visinstance, '__vmath__': _VMath(), '__vtruenp__': symnp,
+        '__vspecial__': symspecial,
     }
 
 
@@ -279,6 +280,7 @@ class Session:
         mo.np._srcmodule = symnp
         mo.fft._srcmodule = symfft
         mo.ndimage._srcmodule = symndimage
+        mo.special._srcmodule = symspecial
         self.mathops = mo
         return self
 
